@@ -123,6 +123,12 @@ def model_kwargs(entry, missing_label, classes, seed=0, variant=0):
         return {"clf": (_clf, _sk_clf, _tree_clf)[variant % 3](missing_label, classes, seed)}
     if m == "clf_freq":
         return {"clf": _clf(missing_label, classes, seed)}
+    if m == "clf_free":
+        # a classifier constructed WITHOUT a class list: the classes are the ones observed so far (documented
+        # precondition: at least one label), so their number may grow from one query to the next
+        from skactiveml.classifier import ParzenWindowClassifier
+
+        return {"clf": ParzenWindowClassifier(missing_label=missing_label, random_state=seed)}
     if m == "clf_logreg":
         return {"clf": _sk_clf(missing_label, classes, seed)}
     if m == "clf_nb_partial":
